@@ -24,6 +24,25 @@ func (s *scen) reopen(mask int) {
 
 func (s *scen) removeIndexes(mask int) {
 	names, _ := filepath.Glob(s.dir + "/*.idx.*")
+	if mask&8 != 0 {
+		// bit3: the tree dump and, per data file, only its highest-numbered hint split
+		last := map[string]string{}
+		for _, n := range names {
+			if strings.HasSuffix(n, ".idx.s") {
+				base := filepath.Base(n)
+				if base > last[base[:3]] {
+					last[base[:3]] = base
+				}
+			}
+		}
+		for _, n := range names {
+			base := filepath.Base(n)
+			if strings.HasSuffix(n, ".idx.hash") || (strings.HasSuffix(n, ".idx.s") && last[base[:3]] == base && !strings.HasSuffix(base, ".000.idx.s")) {
+				os.Remove(n)
+			}
+		}
+		return
+	}
 	for _, n := range names {
 		switch {
 		case strings.HasSuffix(n, ".idx.hash") && mask&1 != 0,
@@ -223,4 +242,27 @@ func VH_dbg_gc22() {
 		vrt.Log("chunk %d size %d whead %d nbuf %d", i, c.size, c.writingHead, len(c.wbuf))
 	}
 	s.checkAll("after-gc")
+}
+
+// C02-S2b: several hint splits per data file (split capacity 2, three distinct keys per file)
+// and partial removal of hint splits: every subset pattern must rebuild the same mapping.
+func VH_C02_S2_hint_splits() {
+	scenSplitCap = 2
+	s := newScen(768, false, "ka", "kb", "kc", "kd")
+	s.setS("ka")
+	s.setS("kb")
+	s.setS("kc") // file0: splits {ka,kb} {kc}
+	s.setS("kd")
+	s.setS("ka")
+	if vrt.Bool("delete") {
+		s.del("kb")
+	} else {
+		s.setS("kb")
+	} // file1: splits {kd,ka} {kb}
+	s.setS("kc") // file2
+	s.checkAll("before-restart")
+	// 8 per-kind patterns, plus "tree dump + last split of every file"
+	s.reopen([]int{0, 1, 2, 3, 7, 8}[vrt.Choice("rm", 6)])
+	s.checkAll("after-restart")
+	s.close()
 }
